@@ -589,6 +589,28 @@ def roundTotals (c : Nat) (t : Totals) : Totals :=
            totalWithTax := o.rescale t.totalWithTax c, payable := o.rescale t.payable c,
            advances := t.advances.map (o.rescale · c), due := t.due.map (o.rescale · c) }
 
+/-! ## `Invoice.Invert` (the sign change it applies before recalculating) -/
+
+/-- amount, explicit base and a charge's own quantity change sign -/
+def invertAdj (d : LineAdj) : LineAdj :=
+  { d with amount := neg d.amount, base := d.base.map neg, quantity := d.quantity.map neg }
+
+def invertLine (l : Line) : Line :=
+  { l with qty := neg l.qty, discounts := l.discounts.map invertAdj, charges := l.charges.map invertAdj }
+
+def invertDocAdj (d : DocAdj) : DocAdj := { d with amount := neg d.amount, base := d.base.map neg }
+
+def invertAdvance (a : Advance) : Advance := { a with amount := neg a.amount }
+
+/-- the document `Invert` recalculates (externally supplied `totals.rounding` is dropped with the totals) -/
+def invertDoc (d : Doc) : Doc :=
+  { d with lines := d.lines.map invertLine, discounts := d.discounts.map invertDocAdj,
+           charges := d.charges.map invertDocAdj, advances := d.advances.map invertAdvance, rounding := none }
+
+/-- a calculated line with every figure negated -/
+def negLineOut (l : Line) : Line :=
+  { invertLine l with sum := l.sum.map neg, total := l.total.map neg }
+
 /-! ## the whole calculation (`bill.calculate`) -/
 
 /-- everything `calculate` knows before the tax summary is built -/
